@@ -25,6 +25,7 @@ fn main() {
         "crash" => crashdrv::main(rest),
         "conc" => concdrv::main(rest),
         "recover" => crashdrv::recover_main(rest),
+        "chunkrec" => crashdrv::chunkrec_main(rest),
         "clocksat" => seqdrv::clocksat(rest),
         "layout-selftest" => layout::selftest(rest.first().map(|s| s.as_str()).unwrap_or("/dev/shm/fxv-layout")),
         "version" => {
